@@ -123,7 +123,11 @@ BATTERY = [('principal.name == "x"', 1), ('principal.manager.name == "x"', 2), (
            ('context.who.manager.name == "x"', 2), ('principal in Group::"g"', 1), ('User::"a".name == "x"', None), ('principal has manager && principal.manager has manager', 2),
            ('[principal.manager.name].contains("x")', 2), ('{a: principal.manager.name}.a == "x"', 2), ('principal.info.n == 1 || principal.manager.manager.name == "x"', 3),
            ('ip("1.2.3.4").isInRange(ip("1.2.3.0/24")) && principal.manager.name == "x"', 2), ('principal.manager.name like "x*"', 2), ('principal.manager is User', 1), ('!(principal.manager.name == "x")', 2),
-           ('principal in [principal.manager.manager]', 2), ('true', 0)]
+           ('principal in [principal.manager.manager]', 2), ('true', 0),
+           # `has` on a record-valued target still dereferences the entity the record comes from; operands that are statically false are still evaluated
+           ('principal.info has boss', 1), ('principal.manager.info has boss', 2), ('{a: principal.manager.info}.a has n', 2), ('principal.info has boss && principal.info.boss.name == "x"', 2),
+           ('(principal.manager.name == "x" && false) || principal.name == "x"', 2), ('(principal.manager.manager.name == "x" && false) || principal.name == "x"', 3), ('(false && principal.manager.manager.name == "x") || principal.name == "x"', 1),
+           ('(principal.manager.name == "x" || true) && principal.name == "x"', 2), ('if (principal.manager.name == "x" && false) then true else principal.name == "x"', 2)]
 
 
 SCHEMA2 = ('entity User in [Group] { manager: User, name: String, info: { boss: User, n: Long } } tags String; entity Group { owner: User }; entity Photo { owner: User }; '
